@@ -1,8 +1,127 @@
 import Ypv.Drv.Codec
-/-! Driver handler for C05 (stub: replaced by the module that models C05) -/
+import Ypv.Model.Merge
+/-! Driver handler for C05 (two-document merge) — JSON codecs for policies and outcomes.
+
+* `C05.merge` `{"l": doc, "r": doc, "cfg": CFG}` ↦ `{"ok": doc}` | `{"err": class}`
+* `C05.eq` `{"a": doc, "b": doc}` ↦ `{"eq": bool}` (Python `==` on document values)
+* `C05.mode` `{"r": doc, "addr": addr, "cfg": CFG}` ↦ the four modes (and the node rule) the
+  configuration answers for the right-hand node at `addr`
+
+`CFG = {"hash","array","aoh","set"` (command line), `"dhash","darray","daoh","dset"` (`[defaults]`)`:
+name|null, "rules": [[addr, name]], "keys": [[addr, text]], "tv": [[text, scalar]]}`.
+-/
 namespace Ypv.Drv.C05
 open Lean (Json)
+open Ypv Ypv.Drv Ypv.Merge
 
-def handle (_op : String) (_j : Json) : Except String Json := throw "C05: driver not implemented yet"
+def optName (j : Json) (k : String) : Option String :=
+  match j.getObjValAs? String k with
+  | .ok s => some s.toLower
+  | .error _ => none
+
+def hashOf : String → Except String HashOpt
+  | "deep" => pure .deep | "left" => pure .left | "right" => pure .right
+  | s => throw s!"hash option {s}"
+def arrayOf : String → Except String ArrayOpt
+  | "all" => pure .all | "left" => pure .left | "right" => pure .right | "unique" => pure .unique
+  | s => throw s!"array option {s}"
+def aohOf : String → Except String AohOpt
+  | "all" => pure .all | "deep" => pure .deep | "left" => pure .left | "right" => pure .right
+  | "unique" => pure .unique
+  | s => throw s!"aoh option {s}"
+def setOf : String → Except String SetOpt
+  | "left" => pure .left | "right" => pure .right | "unique" => pure .unique
+  | s => throw s!"set option {s}"
+def ruleNameOf (s : String) : RuleName :=
+  match s.toLower with
+  | "all" => .all | "deep" => .deep | "left" => .left | "right" => .right | "unique" => .unique
+  | _ => .other
+
+def optWith {α : Type} (j : Json) (k : String) (f : String → Except String α) : Except String (Option α) :=
+  match optName j k with
+  | some s => (f s).map some
+  | none => pure none
+
+def lookupTv (tbl : List (Str × Scalar)) (s : Str) : Scalar :=
+  match tbl.find? (fun p => p.1 == s) with
+  | some p => p.2
+  | none => .str s
+
+def cfgOfJson (j : Json) : Except String Config := do
+  let rules ← match j.getObjVal? "rules" with
+    | .ok (.arr xs) => xs.toList.mapM (fun e => do
+        match e with
+        | .arr #[a, .str n] => pure (← addrOfJson a, ruleNameOf n)
+        | _ => throw "rule: [addr, name] expected")
+    | _ => pure []
+  let keys ← match j.getObjVal? "keys" with
+    | .ok (.arr xs) => xs.toList.mapM (fun e => do
+        match e with
+        | .arr #[a, .str k] => pure (← addrOfJson a, s2l k)
+        | _ => throw "key rule: [addr, text] expected")
+    | _ => pure []
+  let tv ← match j.getObjVal? "tv" with
+    | .ok (.arr xs) => xs.toList.mapM (fun e => do
+        match e with
+        | .arr #[.str t, sj] => pure (s2l t, ← scalarOfJson sj)
+        | _ => throw "tv: [text, scalar] expected")
+    | _ => pure []
+  pure { hashCli := ← optWith j "hash" hashOf, arrayCli := ← optWith j "array" arrayOf,
+         aohCli := ← optWith j "aoh" aohOf, setCli := ← optWith j "set" setOf,
+         hashDef := ← optWith j "dhash" hashOf, arrayDef := ← optWith j "darray" arrayOf,
+         aohDef := ← optWith j "daoh" aohOf, setDef := ← optWith j "dset" setOf,
+         rules := rules, keys := keys, tv := lookupTv tv }
+
+def merrToJson : MErr → Json
+  | .merge => "merge"
+  | .config => "config"
+  | .outOfModel => "outOfModel"
+  | .crash k => errToJson (.crash k)
+
+def outToJson : Except MErr Node → Json
+  | .ok n => Json.mkObj [("ok", nodeToJson n)]
+  | .error e => Json.mkObj [("err", merrToJson e)]
+
+def getCfg (j : Json) : Except String Config :=
+  match j.getObjVal? "cfg" with
+  | .ok c => cfgOfJson c
+  | .error _ => pure {}
+
+def hashName : HashOpt → String | .deep => "deep" | .left => "left" | .right => "right"
+def arrayName : ArrayOpt → String | .all => "all" | .left => "left" | .right => "right" | .unique => "unique"
+def aohName : AohOpt → String
+  | .all => "all" | .deep => "deep" | .left => "left" | .right => "right" | .unique => "unique"
+def setName : SetOpt → String | .left => "left" | .right => "right" | .unique => "unique"
+
+def modeJson {α : Type} (f : α → String) : Except MErr α → Json
+  | .ok v => Json.str (f v)
+  | .error e => Json.mkObj [("err", merrToJson e)]
+
+def handle (op : String) (j : Json) : Except String Json := do
+  match op with
+  | "merge" =>
+    let l ← nodeOfJson (← j.getObjVal? "l")
+    let r ← nodeOfJson (← j.getObjVal? "r")
+    let cfg ← getCfg j
+    pure (outToJson (mergeWith cfg l r))
+  | "eq" =>
+    let a ← nodeOfJson (← j.getObjVal? "a")
+    let b ← nodeOfJson (← j.getObjVal? "b")
+    pure (Json.mkObj [("eq", .bool (pyEq a b))])
+  | "mode" =>
+    let r ← nodeOfJson (← j.getObjVal? "r")
+    let addr ← addrOfJson (← j.getObjVal? "addr")
+    let cfg ← getCfg j
+    let env := prepare cfg r
+    match resolve r addr with
+    | none => pure (Json.mkObj [("unresolved", .bool true)])
+    | some c =>
+      pure (Json.mkObj [("hash", modeJson hashName (hashMode env c)),
+                        ("array", modeJson arrayName (arrayMode env c)),
+                        ("aoh", modeJson aohName (aohMode env c)),
+                        ("set", modeJson setName (setMode env c)),
+                        ("rule", modeJson (fun o => match o with | some m => aohName m | none => "none")
+                                   (nodeRule env c))])
+  | _ => throw s!"C05: unknown op {op}"
 
 end Ypv.Drv.C05
